@@ -426,11 +426,23 @@ func cmdCheck(args []string) int {
 		// violations: confirm natively, then report
 		for _, v := range rep.Violations {
 			cases := []nativeCase{{Harness: h.Fn, Params: params, Inputs: v.Inputs}}
-			res, err := runNative(scratch, h.Pkg, cases, nil)
+			// order/schedule dependent candidates: Go re-randomises map iteration per run, so the same
+			// inputs are replayed several times in one native process and any reproduction counts
+			tries := 1
+			if t, ok := params["replay_tries"]; ok && t > 1 {
+				tries = t
+			}
+			many := cases
+			for k := 1; k < tries; k++ {
+				many = append(many, cases[0])
+			}
+			res, err := runNative(scratch, h.Pkg, many, nil)
 			confirmed := false
 			detail := ""
-			if err == nil && len(res) == 1 {
-				r := res[0]
+			for _, r := range res {
+				if confirmed || err != nil {
+					break
+				}
 				if strings.HasPrefix(v.Label, "panic@") {
 					confirmed = r.Status == "panic"
 					detail = firstLine(r.Panic)
@@ -446,7 +458,8 @@ func cmdCheck(args []string) int {
 						detail = "native run panicked: " + firstLine(r.Panic)
 					}
 				}
-			} else if err != nil {
+			}
+			if err != nil {
 				detail = firstLine(err.Error())
 			}
 			key := h.Fn + ":" + v.Label
